@@ -277,7 +277,8 @@ fn check_response(ctx: &Ctx, sh: &Shared, c: &Case, r: &ReadOutcome, server: &st
 }
 
 pub fn run(ctx: &Ctx, samples: &Samples) -> Value {
-    let total: u64 = ctx.tier.pick(12_000, 600_000);
+    // (more than 2^16 requests per server process even in the quick tier: ids must not repeat after a counter wraps)
+    let total: u64 = ctx.tier.pick(150_000, 600_000);
     let srv = LiveServer::start(api(), (), ServerOpts { rt: RtKind::MultiThread(4), ..Default::default() }).unwrap_or_else(|e| machinery_failure(&e));
     // a versioned server for version-policy failures
     let vsrv = LiveServer::start(api(), (), ServerOpts { version_policy: Some(versioned("2.0.0")), ..Default::default() }).unwrap_or_else(|e| machinery_failure(&e));
